@@ -42,7 +42,7 @@ def queries(tier, seed):
     for lst in item_lists(v['items'], maxn):
         for w in v['wheres']:
             qs.append(('plain', {'kind': 'select', 'items': lst, 'where': w, 'join': None}))
-    for ex in ([('f', 'a', 1)], [('f', 'a', 2)], [('f', 'a', 1), ('f', 'a', 3)], [('f', 'a', 3), ('f', 'a', 1)]):
+    for ex in ([('f', 'a', 1)], [('f', 'a', 2)], [('f', 'a', 1), ('f', 'a', 3)], [('f', 'a', 3), ('f', 'a', 1)], [('f', 'a', 1), ('f', 'a', 1, 'a[N]'), ('f', 'a', 2)], [('f', 'a', 2), ('f', 'a', 3), ('f', 'a', 2)]):
         for w in v['wheres']:
             qs.append(('plain', {'kind': 'select', 'items': [('star', None)], 'except_cols': ex, 'where': w, 'join': None}))
     for lst in item_lists(v['jitems'], 2 if tier == 'quick' else 2):
@@ -84,6 +84,7 @@ def run_shard(sh):
     plain_long = qcheck.long_table(v['rows'], maxrows)
     join_tables = list(qcheck.tables_upto(v['jrows'], maxrows))
     join_long = qcheck.long_table(v['jrows'][:4], maxrows)
+    jscases = []
     for kind, q in qs[sh['lo']:sh['hi']]:
         text = refql.render(q)
         if kind == 'plain':
@@ -95,6 +96,7 @@ def run_shard(sh):
             A, B = cases[i]
             i += 1
             exp, got, why = qcheck.run_case(res, q, A, B, diagnose=diagnose, text=text)
+            jscases.append((q, A, B, None, None))
             res.states += 1
             res.transitions += 1 if A else 0
             if len(A) > maxrows:
@@ -113,6 +115,7 @@ def run_shard(sh):
             res.outcome(repr((exp.records, exp.error))[:60])
         if (sh['lo'] * 7 + len(res.samples)) % 5 == 0 and len(res.samples) < 2:
             res.sample({'query': text, 'tables': len(cases)})
+    qcheck.run_js_cases(res, jscases, diagnose)      # the JS twin on the language-neutral cases
     return res
 
 
